@@ -156,6 +156,8 @@ def plan(tier, seed):
         (corner("unit", prefix=A.GL), tG, 2),
         (corner("real", prefix=A.LL, name="real-two-locals"), A.two_locals(), 4),
         (corner("unit8", prefix=A.GL, name="unit8-fall-tail"), A.fall_tail(rise=60), 4),
+        (corner("awk", prefix=A.DG, qubits=3, qid_alias={"q0": 2, "q1": 0, "q2": 1}, name="awk-dmm-first-int-ids"),
+         A.timing(l="r", basis_l="ground-rydberg", dmm=True, faults=False), 2),
         (corner("real", prefix=A.GL, name="real-fall-tail"), A.fall_tail(rise=60, step=4), 4 if tier == "quick" else 3),
     ]
     if tier == "thorough":
